@@ -918,6 +918,29 @@ __attribute__((no_sanitize("address", "undefined"))) static void gen3(rng &r, bo
             E(line);
         }
     }
+    // aliasing (read-only) arguments: the same string / overlapping suffixes passed twice
+    for (int k = 0; k < 60 * K; k++)
+    {
+        size_t l = r.range(0, 24), x;
+        bytes s1(l);
+        for (auto &c : s1) c = (uint8_t)("abAB,\xe1"[r.below(6)]);
+        std::string A = B('A', r.below(8), emb(cstr(s1), x));
+        size_t j = r.below(l + 1), j2 = r.below(l + 1);
+        std::string p0 = Pp('A', x), pj = Pp('A', x + j), pj2 = Pp('A', x + j2);
+        for (const char *fn : {"strcmp", "strcasecmp", "strstr", "strcasestr", "strspn", "strcspn", "strpbrk"})
+        {
+            E(std::string(fn) + " " + A + " " + p0 + " " + p0);
+            E(std::string(fn) + " " + A + " " + p0 + " " + pj);   // the needle / set is a suffix of the string itself: a match at the very end
+            E(std::string(fn) + " " + A + " " + pj + " " + pj2);  // also needles longer than the haystack
+        }
+        for (uint64_t n : {(uint64_t)0, (uint64_t)1, (uint64_t)l, (uint64_t)l + 1, ~(uint64_t)0})
+        {
+            E("strncmp " + A + " " + p0 + " " + pj + " " + N(n));
+            E("strncasecmp " + A + " " + pj2 + " " + pj + " " + N(n));
+        }
+        E("memcmp " + A + " " + p0 + " " + p0 + " " + N(l + 1));
+        E("memcmp " + A + " " + p0 + " " + pj + " " + N(l + 1 - j));
+    }
     // memchr / strnlen / strncmp with n = SIZE_MAX where ISO defines it (the match / terminator exists)
     for (int k = 0; k < 30 * K; k++)
     {
